@@ -19,8 +19,7 @@ SPEC = {
                      "the tie is per rule (verif_hooks, `pv`) and through the whole validate_txs (`pvw`: synthesized, correctly signed "
                      "transactions with fee/min-ada/size rules relaxed so that this rule decides the verdict); Byron is per rule only",
                      "harness/src/fixtures (ported test data, Byron address template)"],
-    "assumptions": ["dev profile: u64/i64 sums that overflow are a panic (model verdict `panic`); in a release build the Conway u64 asset "
-                    "sum wraps instead - arithmetic totality is C33's subject",
+    "assumptions": ["sums that do not fit u64/i64 are the NegativeValue-class error (checked_add since the C33 fix), in every build profile",
                     "transactions without certificates, withdrawals, treasury or donation fields (as the property states); Byron redeem-only "
                     "transactions are exempt from the minimum fee (as in the Byron rules) but not from outputs <= inputs",
                     "Conway: spent/produced values and the mint have unique keys (decoded BTreeMaps); Conway Legacy-form outputs are not "
